@@ -44,9 +44,32 @@ def check(ctx):
     _r7(ctx, pkg)
 
 
-def _mutations(fl):
+def _aliases(fl, attr_ir):
+    """locals that are only ever bound to the given attribute of self (`pool = self.reaction_list`): the same object under another
+    name -- what is done to the local in place is done to the attribute"""
+    return {name for name, lst in fl.assigns.items() if lst and all(simp(v) == attr_ir for v, *_ in lst)}
+
+
+def _appends_to(fl, attr_ir):
+    """[(fact, appended value)] for `self.<attr>.append(x)`, also through a local alias of the attribute"""
+    al = _aliases(fl, attr_ir)
     out = []
     for f in fl.facts:
+        if f.kind == "call" and f.target == "append" and f.value and f.value[0] == "meth" and simp(f.value[1]) == attr_ir and len(f.value[3]) == 1:
+            out.append((f, simp(f.value[3][0])))
+        elif f.kind == "append" and f.op == "append" and f.target in al:
+            out.append((f, simp(f.value)))
+    return out
+
+
+def _mutations(fl):
+    out = []
+    al = _aliases(fl, RL)
+    for f in fl.facts:
+        if f.kind in ("append", "remove", "mutate") and f.target in al:
+            out.append((f.op, f))
+        elif (f.kind in ("store", "augstore") and f.target in al) or (f.kind == "delete" and f.target.split("[")[0].strip() in al and "[" in f.target):
+            out.append(("del" if f.kind == "delete" else "item", f))
         if f.kind == "attrstore" and f.target == "reaction_list" and f.extra.get("obj") == SELF:
             out.append(("assign", f))
         elif f.kind == "call" and f.value and f.value[0] == "meth" and f.value[1] == RL and f.target in ("append", "pop", "remove", "clear", "extend", "insert", "sort", "reverse"):
@@ -59,7 +82,10 @@ def _mutations(fl):
 def _cache_updates(fl, pkg):
     """facts that (re)establish a cache: {cache: [fact]}; a call of self.add_reaction/_add_reaction counts for both."""
     out = {c: [] for c in CACHES}
+    al = {name: c for c in CACHES for name in _aliases(fl, ("attr", SELF, c))}
     for f in fl.facts:
+        if f.kind in ("append", "mutate") and f.target in al and f.op in ("update", "add", "clear"):
+            out[al[f.target]].append(f)
         if f.kind == "attrstore" and f.target in CACHES and f.extra.get("obj") == SELF:
             out[f.target].append(f)
         elif f.kind == "call" and f.value and f.value[0] == "meth":
@@ -72,9 +98,11 @@ def _cache_updates(fl, pkg):
     return out
 
 
-def _cache_growth(f):
+def _cache_growth(f, al=None):
     """(cache, what is added) when the fact adds members to a cached set of self: `.update(X)`, `|= X`, `= self.<cache> | X`,
-    `= self.<cache>.union(X)`; else None"""
+    `= self.<cache>.union(X)`; else None.  al: {local name: cache} for locals that alias a cache"""
+    if al and f.kind == "mutate" and f.target in al and f.op == "update" and f.value is not None:
+        return al[f.target], simp(f.value)
     if f.kind == "call" and f.target == "update" and f.value and f.value[0] == "meth" and f.value[1][0] == "attr" and f.value[1][1] == SELF \
             and f.value[1][2] in CACHES and len(f.value[3]) == 1:
         return f.value[1][2], simp(f.value[3][0])
@@ -88,6 +116,23 @@ def _cache_growth(f):
         if f.op == "=" and v[0] == "meth" and v[1] == own and v[2] == "union" and len(v[3]) == 1:
             return f.target, v[3][0]
     return None
+
+
+def _concat_operands(v):
+    """the sequences a new list is the concatenation of, whatever the spelling: `a + b`, `[*a, *b]`, `list(chain(a, b))`, with
+    list(..) / tuple(..) / .copy() / [:] of an operand being that operand"""
+    from .c09 import _is_chain, _unwrap_seq
+    v = _unwrap_seq(v)
+    if v[0] == "sub" and v[2] == ("slice", ("const", None), ("const", None), ("const", None)):
+        return _concat_operands(v[1])
+    if v[0] == "binop" and v[1] == "Add":
+        return _concat_operands(v[2]) + _concat_operands(v[3])
+    if v[0] in ("list", "tuple") and v[1] and all(e[0] == "star" for e in v[1]):
+        return [o for e in v[1] for o in _concat_operands(e[1])]
+    ch = _is_chain(v)
+    if ch is not None:
+        return [o for a in ch for o in _concat_operands(a)]
+    return [v]
 
 
 def _flat_and(g):
@@ -157,13 +202,13 @@ def _r2(ctx, pkg):
     # helpers are put back where they are called, value / predicate helpers are followed by the flow
     fn = pkg.expanded("Network", "_add_reaction")
     fl = Flow(fn, NF, resolver=lambda name: pkg.resolve("Network", name)[1])
-    app = [f for f in fl.facts if f.kind == "call" and f.target == "append" and f.value[1] == RL]
-    skip = [f for f in fl.facts if f.kind == "call" and f.target == "append" and f.value[1] == ("attr", SELF, "_skipped_reactions")]
+    app = _appends_to(fl, RL)
+    skipped = _appends_to(fl, ("attr", SELF, "_skipped_reactions"))
+    skip = [f for f, _ in skipped]
     if len(app) != 1:
         ctx.unrec("R2", "_add_reaction:append", (NF, fn.lineno), f"expected one append to reaction_list, found {len(app)}")
         return
-    a = app[0]
-    reac = simp(a.value[3][0])
+    a, reac = app[0]
     ALLOWED = ("attr", SELF, "_allowed_species")
 
     def all_test(x):
@@ -203,12 +248,13 @@ def _r2(ctx, pkg):
               "the append is not dominated by `all(rp in self._allowed_species for rp in reactants + products)`: a reaction mentioning a disallowed species "
               "can enter, or spellings of one species (E / e-, another surface prefix) are compared by text instead of Species equality",
               expected="if self._allowed_species and not all([rp in self._allowed_species for rp in reaction.reactants + reaction.products]): skip", found=detail[:300])
-    ok_skip = len(skip) == 1 and simp(skip[0].value[3][0]) == reac and \
+    ok_skip = len(skip) == 1 and skipped[0][1] == reac and \
         bool(tests) and not guards_satisfiable(skip[0].guards, [(tests[0], all_test(tests[0]) > 0)]) and guards_satisfiable(skip[0].guards, [(ALLOWED, True), (tests[0], all_test(tests[0]) < 0)])
     ctx.check(ok_skip, "R2", "_add_reaction:rejected are remembered", (NF, skip[0].line if skip else fn.lineno),
               "a rejected reaction is recorded in _skipped_reactions (so a later change of the allowed list can re-admit it)")
     # cache updates use the appended reaction: self._reactants.update(X) / self._reactants |= X / self._reactants = self._reactants | X
-    ups = [(f, g) for f in fl.facts for g in [_cache_growth(f)] if g is not None]
+    cal = {name: c for c in CACHES for name in _aliases(fl, ("attr", SELF, c))}
+    ups = [(f, g) for f in fl.facts for g in [_cache_growth(f, cal)] if g is not None]
     good = len(ups) == 2 and {g[0] for _, g in ups} == set(CACHES)
     for u, (cache, arg) in ups:
         side = "reactants" if cache == "_reactants" else "products"
@@ -216,7 +262,8 @@ def _r2(ctx, pkg):
     # the caches are written in some other way (element-wise add in a loop, ..): not understood, no verdict
     other = [f for f in fl.facts if not any(f is u for u, _ in ups) and
              ((f.kind == "call" and f.value and f.value[0] == "meth" and f.value[1][0] == "attr" and f.value[1][1] == SELF and f.value[1][2] in CACHES) or
-              (f.kind == "attrstore" and f.target in CACHES and f.extra.get("obj") == SELF))]
+              (f.kind == "attrstore" and f.target in CACHES and f.extra.get("obj") == SELF) or
+              (f.kind in ("append", "mutate", "remove", "store") and f.target in cal))]
     if not good and other:
         ctx.unrec("R2", "_add_reaction:cache update", (NF, other[0].line), f"the cached sets are maintained in a way that is not understood ({other[0].kind} {other[0].target})")
     else:
@@ -233,7 +280,7 @@ def _r2(ctx, pkg):
     adds = [f for f in sfl.facts if f.kind == "call" and f.target == "add_reaction" and f.loops]
     it0 = simp(adds[0].loops[0].iter) if adds else None
     rec = [e for lst in sfl.assigns.values() for e in lst if it0 is not None and simp(e[0]) == it0]
-    ok_rec = bool(rec) and simp(rec[0][0]) in (("binop", "Add", RL, ("attr", SELF, "_skipped_reactions")), ("binop", "Add", ("attr", SELF, "_skipped_reactions"), RL))
+    ok_rec = bool(rec) and sorted(_concat_operands(simp(rec[0][0]))) == sorted([RL, ("attr", SELF, "_skipped_reactions")])
     seq_rec = rec[0][4] if rec else 0
     reset_after = all(f.seq > seq_rec for f in sfl.facts if (f.kind == "attrstore" and f.target in ("reaction_list", "_skipped_reactions")) or (f.kind == "call" and f.target == "clear"))
     re_add = [f for f in sfl.facts if f.kind == "call" and f.target == "add_reaction" and f.loops and simp(f.loops[0].iter) == (simp(rec[0][0]) if rec else None)]
@@ -961,3 +1008,19 @@ MUTANTS += [
     {"name": "table-declares-another-name", "edits": _new_by_tables(declared='("summary", "Project description.")'), "rules": ["R3"]},
     {"name": "comprehension-reads-undeclared-name", "edits": _new_by_tables(read='"descr"'), "rules": ["R3"]},
 ]
+_RECORD_OLD = ("        self.reaction_list.append(reaction)\n        new_reactants = set(reaction.reactants).difference(self._reactants)\n"
+               "        new_products = set(reaction.products).difference(self._products)\n        self._reactants.update(new_reactants)\n        self._products.update(new_products)\n")
+
+
+def _record_by_alias(products_line="        made.update(new_products)\n"):
+    return {"file": NF, "old": _RECORD_OLD, "new": "        pool, used, made = self.reaction_list, self._reactants, self._products\n        pool.append(reaction)\n"
+            "        new_reactants = set(reaction.reactants).difference(used)\n        new_products = set(reaction.products).difference(made)\n        used.update(new_reactants)\n" + products_line}
+
+
+BENIGN += [dict(_record_by_alias(), name="attributes-under-local-names")]
+MUTANTS += [dict(_record_by_alias(products_line=""), name="local-names-products-not-updated", rules=["R1", "R2"]),
+            dict(_record_by_alias(products_line="        made.update(new_reactants)\n"), name="local-names-products-grown-by-reactants", rules=["R2"])]
+BENIGN += [{"name": "setter-snapshot-by-unpacking", "file": NF, "old": "recorded_reactions = self.reaction_list + self._skipped_reactions",
+            "new": "recorded_reactions = [*self.reaction_list, *self._skipped_reactions]"}]
+MUTANTS += [{"name": "setter-snapshot-forgets-skipped", "file": NF, "old": "recorded_reactions = self.reaction_list + self._skipped_reactions",
+             "new": "recorded_reactions = [*self.reaction_list]", "rules": ["R2"]}]
